@@ -1486,9 +1486,14 @@ impl<'a, 'b, W: Write> Serializer for &'a mut YamlSerializer<'b, W> {
             self.current_map_depth = prev_map_depth;
             return res;
         }
-        // Otherwise (top-level or sequence context).
-        // (The label's column is not tracked here: the payload falls back to depth-based layout.)
-        let prev_key_col = self.current_key_col.take();
+        // Otherwise (top-level or sequence context). The label is the key the payload hangs on:
+        // it starts at the current indentation, or right after the dash of a sequence item.
+        let label_col = if self.at_line_start {
+            Some(self.indent_step * self.depth)
+        } else {
+            self.after_dash_depth.map(|d| self.indent_step * d + 2)
+        };
+        let prev_key_col = std::mem::replace(&mut self.current_key_col, label_col);
         if self.at_line_start {
             self.write_indent(self.depth)?;
         }
